@@ -79,6 +79,18 @@ N = {
  "C19-2": ("one check, then a blocking put", "every worker dies while the producer is blocked on a full queue", "systematic failures (every item fails after a delay)"),
  "C19-b1": ("check_workers stops scanning at the first live worker", "parallel walk, failure in a worker other than the first", "-"),
  "C19-b2": ("input images prefetched in a thread whose exceptions are lost", "error while loading an input image in the dispatching process", "faults while loading inputs"),
+ "C05-b1": ("level-0 grid taken as every other pixel of the level-1 grids (centres of level-9 tiles (9,2j,2i))", "depth-0 sampling", "C05 now checks the grids handed to samplers by the real entry points, incl. level 0"),
+ "C05-b2": ("sample_layer_filtered builds its ToastSampler without the coordinate system", "filtered entry point, planetary system, depth 0", "same"),
+ "C07-b1": ("image dimensions taken from wcs.pixel_shape in the wrong axis order", "non-square image whose WCS records NAXIS1/2 (read from FITS)", "footprints whose WCS carries pixel_shape"),
+ "C11-b1": ("latitude wrapped with a modulo: lat == +pi/2 reads the last row", "request containing the exact north pole, ny >= 2", "-"),
+ "C11-b2": ("leading size-1 axes peeled off: a (1, nx, C) colour map is read as (nx, C)", "one-pixel-high colour map", "-"),
+ "C16-b1": ("PC elements that are exactly 0.0 replaced by 1.0 (`pop(...) or default`)", "rotation by exactly 90/270 degrees with literal zeros", "exact quarter turns"),
+ "C16-b2": ("|det| < 1e-12 reported as parity -1", "pixel scale below 1e-6 deg (VLBI)", "pixel scales down to micro-arcseconds"),
+ "C16-b3": ("parity memoised by id(wcs)", "several short-lived WCS objects of mixed parity in one process", "-"),
+ "C18-b1": ("put_item retried without rewinding the stream", "a transient store error during/after the copy of a non-index file", "transient (ordinary OSError) faults"),
+ "C18-b2": ("refresh judges 'done' from the existence of the image's folder in the store", "publish interrupted after the first byte, then refresh", "the real `pipeline refresh` run after every third fault state"),
+ "C20-b1": ("default HDU selection first probes the slot guessed for the previous file", "no selection, files with different layouts in a particular order", "-"),
+ "C20-b2": ("descriptions cached; tiling analysis flips their parity in place", "collection analysed for tiling, then descriptions() compared with images()", "reuse history; bottom-up inputs"),
  "C20-1": ("resolved HDU cached by file path", "the same path listed twice with different indices", "repeated paths"),
  "C20-2": ("blank entries dropped from the --wcs-key list", "command-line key list containing the space key", "-"),
 }
